@@ -1,13 +1,216 @@
-//! C05 seeds, field inventory and entry points for "skin" (stub: not built yet).
+//! C05 seeds, field inventory and entry points for .skin files (wow_m2::parse_skin).
+//!
+//! Seeds are written by the library's own `SkinG::<H>::write` (old format: `OldSkinHeader`,
+//! "SKIN" + 5 M2Arrays + bone_count_max; new format: `SkinHeader`, "SKIN" + version + name +
+//! vertex_count + 5 M2Arrays [+ centre/bounds for version 4 "BfA"]). `parse_skin` picks the
+//! format from the second u32 (<= 4: new format version, > 4: old format index count), so the
+//! old-format seeds carry more than 4 indices.
+//!
+//! The inventory reads every count/offset back from the written file: the writer advances its
+//! offset by 40 bytes per submesh although a submesh is 48 bytes on disk, so `batches.offset` of a
+//! library-written file points into the submesh table; the fields registered for `batch[i]` are
+//! those the parser actually reads (at `batches.offset + 24 * i`).
 use crate::seed::{Aux, Seed};
-use crate::worker::Runner;
+use crate::worker::{errname, Runner};
+use std::io::Cursor;
+use wow_m2::skin::{OldSkin, OldSkinHeader, Skin, SkinBatch, SkinHeader, SkinSubmesh};
+use wow_m2::M2Version;
 
-pub fn seed_names(_thorough: bool) -> Vec<String> {
-    Vec::new()
+pub fn seed_names(thorough: bool) -> Vec<String> {
+    let mut v = vec!["old-2sub".to_string(), "new-v4-bfa".to_string()];
+    if thorough {
+        v.push("new-v1-cata".into());
+        v.push("new-v4-legion".into());
+        v.push("new-v0".into());
+        v.push("old-min".into());
+    }
+    v
+}
+
+fn submesh(i: u16) -> SkinSubmesh {
+    SkinSubmesh {
+        id: i,
+        level: 0,
+        vertex_start: 3 * i,
+        vertex_count: 3,
+        triangle_start: 3 * i,
+        triangle_count: 3,
+        bone_count: 2,
+        bone_start: i,
+        bone_influence: 1,
+        center: [0.5, 1.0, 1.5],
+        sort_center: [0.25, 0.5, 0.75],
+        bounding_radius: 2.0,
+    }
+}
+
+fn batch(i: u16) -> SkinBatch {
+    SkinBatch {
+        flags: 0x10,
+        priority_plane: 0,
+        shader_id: 0x8000 + i,
+        skin_section_index: i,
+        geoset_index: i,
+        color_index: 0xFFFF,
+        material_index: i,
+        material_layer: 0,
+        texture_count: 1,
+        texture_combo_index: i,
+        texture_coord_combo_index: 0,
+        texture_weight_combo_index: 0,
+        texture_transform_combo_index: 0xFFFF,
+    }
+}
+
+struct Parts {
+    indices: Vec<u16>,
+    triangles: Vec<u16>,
+    bone_indices: Vec<u8>,
+    submeshes: Vec<SkinSubmesh>,
+    batches: Vec<SkinBatch>,
+}
+
+fn parts(nsub: u16) -> Parts {
+    let nv = (3 * nsub).max(6);
+    Parts {
+        indices: (0..nv).collect(),
+        triangles: (0..nv).map(|i| (i + 1) % nv).collect(),
+        bone_indices: (0..nv as usize * 4).map(|i| (i % 3) as u8).collect(),
+        submeshes: (0..nsub).map(submesh).collect(),
+        batches: (0..nsub).map(batch).collect(),
+    }
+}
+
+fn arr(s: &mut Seed, pos: usize, name: &str, unit: usize) -> (usize, usize) {
+    let c = s.u32_at(pos) as usize;
+    let o = s.u32_at(pos + 4) as usize;
+    s.field_ex(pos, 4, "count", format!("hdr.{name}.count"), o, unit, None);
+    s.field_ex(pos + 4, 4, "offset", format!("hdr.{name}.offset"), 0, 1, None);
+    (c, o)
+}
+
+fn inventory(s: &mut Seed, arrays_at: usize, p: &Parts) {
+    let len = s.bytes.len();
+    let (ci, oi) = arr(s, arrays_at, "indices", 2);
+    let (ct, ot) = arr(s, arrays_at + 8, "triangles", 2);
+    let (cb, ob) = arr(s, arrays_at + 16, "bone_indices", 4);
+    let (cs, os) = arr(s, arrays_at + 24, "submeshes", 48);
+    let (cq, oq) = arr(s, arrays_at + 32, "batches", 24);
+    assert_eq!((ci, ct, cb, cs, cq), (p.indices.len(), p.triangles.len(), p.bone_indices.len() / 4, p.submeshes.len(), p.batches.len()));
+    for (c, o, u) in [(ci, oi, 2), (ct, ot, 2), (cb, ob, 4), (cs, os, 48), (cq, oq, 24)] {
+        assert!(c == 0 || o + c * u <= len, "skin: array outside the written file");
+    }
+    // a few entries of the index tables (they index the model's vertex list)
+    if ci > 0 {
+        s.field_ex(oi, 2, "index", "indices[0]", oi + 2, 1, None);
+        s.field_ex(oi + 2 * (ci - 1), 2, "index", format!("indices[{}]", ci - 1), oi + 2 * ci, 1, None);
+        s.field_ex(ot, 2, "index", "triangles[0]", ot + 2, 1, None);
+        s.field_ex(ob, 1, "index", "bone_indices[0]", ob + 1, 1, None);
+    }
+    // first and last submesh: fields that index into the other arrays
+    let mut subs: Vec<usize> = vec![];
+    if cs > 0 {
+        subs.push(0);
+        if cs > 1 {
+            subs.push(cs - 1);
+        }
+    }
+    for i in subs {
+        let b = os + 48 * i;
+        assert_eq!(u16::from_le_bytes([s.bytes[b + 4], s.bytes[b + 5]]), p.submeshes[i].vertex_start);
+        s.field_ex(b, 2, "index", format!("submesh[{i}].id"), b + 2, 1, None);
+        s.field_ex(b + 2, 2, "index", format!("submesh[{i}].level"), b + 4, 1, None);
+        s.field_ex(b + 4, 2, "index", format!("submesh[{i}].vertex_start"), oi, 2, None);
+        s.field_ex(b + 6, 2, "count", format!("submesh[{i}].vertex_count"), oi + 2 * p.submeshes[i].vertex_start as usize, 2, None);
+        s.field_ex(b + 8, 2, "index", format!("submesh[{i}].triangle_start"), ot, 2, None);
+        s.field_ex(b + 10, 2, "count", format!("submesh[{i}].triangle_count"), ot + 2 * p.submeshes[i].triangle_start as usize, 2, None);
+        s.field_ex(b + 12, 2, "count", format!("submesh[{i}].bone_count"), ob, 4, None);
+        s.field_ex(b + 14, 2, "index", format!("submesh[{i}].bone_start"), ob, 4, None);
+        s.field_ex(b + 16, 2, "index", format!("submesh[{i}].bone_influence"), b + 18, 1, None);
+    }
+    let mut bs: Vec<usize> = vec![];
+    if cq > 0 {
+        bs.push(0);
+        if cq > 1 {
+            bs.push(cq - 1);
+        }
+    }
+    for i in bs {
+        let b = oq + 24 * i;
+        s.field_ex(b, 1, "index", format!("batch[{i}].flags"), b + 1, 1, None);
+        s.field_ex(b + 2, 2, "index", format!("batch[{i}].shader_id"), b + 4, 1, None);
+        s.field_ex(b + 4, 2, "index", format!("batch[{i}].skin_section_index"), os, 48, None);
+        s.field_ex(b + 6, 2, "index", format!("batch[{i}].geoset_index"), os, 48, None);
+        s.field_ex(b + 10, 2, "index", format!("batch[{i}].material_index"), b + 12, 1, None);
+        s.field_ex(b + 14, 2, "count", format!("batch[{i}].texture_count"), b + 16, 1, None);
+        s.field_ex(b + 16, 2, "index", format!("batch[{i}].texture_combo_index"), b + 18, 1, None);
+    }
 }
 
 pub fn build(name: &str) -> Seed {
-    wverif_common::tool_error(&format!("skin: unknown seed {name}"))
+    match name {
+        "old-2sub" | "old-min" => {
+            let p = if name == "old-min" { parts(0) } else { parts(2) };
+            let mut h = OldSkinHeader::new();
+            h.bone_count_max = 21;
+            let skin = OldSkin {
+                header: h,
+                indices: p.indices.clone(),
+                triangles: p.triangles.clone(),
+                bone_indices: p.bone_indices.clone(),
+                submeshes: p.submeshes.clone(),
+                batches: p.batches.clone(),
+            };
+            let mut out = Cursor::new(Vec::new());
+            skin.write(&mut out).expect("skin: OldSkin::write");
+            let mut s = Seed::new("skin", name, out.into_inner());
+            assert!(s.u32_at(4) > 4, "skin: old-format seed must have more than 4 indices");
+            s.field(0, 4, "index", "hdr.magic");
+            inventory(&mut s, 4, &p);
+            assert_eq!(s.u32_at(44), 21);
+            s.field(44, 4, "index", "hdr.bone_count_max");
+            s
+        }
+        "new-v4-bfa" | "new-v1-cata" | "new-v4-legion" | "new-v0" => {
+            let (ver, nsub) = match name {
+                "new-v4-bfa" => (M2Version::BfA, 2),
+                "new-v1-cata" => (M2Version::Cataclysm, 3),
+                "new-v4-legion" => (M2Version::Legion, 1),
+                _ => (M2Version::WotLK, 2),
+            };
+            let p = parts(nsub);
+            let mut h = SkinHeader::new(ver);
+            h.vertex_count = p.indices.len() as u32;
+            if ver >= M2Version::BfA {
+                h.center_position = Some([1.0, 2.0, 3.0]);
+                h.center_bounds = Some(4.0);
+            }
+            let skin = Skin {
+                header: h,
+                indices: p.indices.clone(),
+                triangles: p.triangles.clone(),
+                bone_indices: p.bone_indices.clone(),
+                submeshes: p.submeshes.clone(),
+                batches: p.batches.clone(),
+            };
+            let mut out = Cursor::new(Vec::new());
+            skin.write(&mut out).expect("skin: Skin::write");
+            let mut s = Seed::new("skin", name, out.into_inner());
+            assert!(s.u32_at(4) <= 4);
+            s.field(0, 4, "index", "hdr.magic");
+            s.field(4, 4, "index", "hdr.version");
+            // the writer never emits a name; the parser only reads the pair
+            s.field_ex(8, 4, "strlen", "hdr.name.count", s.u32_at(12) as usize, 1, None);
+            s.field_ex(12, 4, "stroff", "hdr.name.offset", 0, 1, None);
+            let oi = s.u32_at(24) as usize;
+            s.field_ex(16, 4, "count", "hdr.vertex_count", oi, 2, None);
+            inventory(&mut s, 20, &p);
+            s
+        }
+        _ => wverif_common::tool_error(&format!("skin: unknown seed {name}")),
+    }
 }
 
-pub fn run(_r: &mut Runner, _bytes: &[u8], _aux: &Aux) {}
+pub fn run(r: &mut Runner, bytes: &[u8], _aux: &Aux) {
+    r.call("parse_skin", || wow_m2::parse_skin(&mut Cursor::new(bytes)).map(|_| ()).map_err(errname));
+}
